@@ -80,6 +80,17 @@ def int_values(rng, dt, tier):
         for _ in range(300 if tier == "quick" else 3000):
             vals.add(rng.randint(lo, hi))
             vals.add(rng.randint(lo * 2 - 5, hi * 2 + 5))
+        # far outside: every power of two up to 2^66 (alone, and on top of an in-range value), both signs,
+        # random 64- and 72-bit numbers (a range test that looks at part of the surplus bits only)
+        for p in range(bits, 67):
+            for base in (0, 5, rng.randint(0, hi)):
+                vals.add((1 << p) + base)
+                vals.add(-(1 << p) - base)
+        for _ in range(40 if tier == "quick" else 400):
+            vals.add(rng.getrandbits(64))
+            vals.add(-rng.getrandbits(63))
+            vals.add(rng.getrandbits(72))
+            vals.add(rng.getrandbits(8) << rng.randrange(bits, 65))
         vals.update([hi + 1, lo - 1, hi + 2, 1 << bits, (1 << bits) + 1, -(1 << bits), 1 << 64, -(1 << 63) - 1,
                      (1 << 64) - 1])
     return sorted(vals)
